@@ -449,7 +449,18 @@ def contracts(reg):
         note="hidden members, macOS resource forks, unsupported types and nested archives are skipped",
     ))
     out.extend(writer_contracts(reg))
-    return out
+    # round-7 contracts sit on helpers a harmless edit may rename, merge or inline: a helper that no longer exists has nothing to prove (its callers
+    # are then verified with the body of whatever they call instead); the vacuity guard tolerates the missing ids only when the file changed
+    R7 = {f"{ARCH}::_is_supported_file_cached", f"{ARCH}::_get_file_extractor_cached", f"{ARCH}::_process_archive_entry", f"{SEVEN}::_mkdirs",
+          f"{SEVEN}::SevenZipReader._extract_files_from_folder", f"{SEVEN}::SevenZipReader.extractall", f"{SEVEN}::SevenZipReader._decompress_folder"}
+
+    def exists(t):
+        try:
+            rel, q = t.split("::")
+            return q in loader.module(rel).functions
+        except Exception:  # noqa
+            return True
+    return [c for c in out if c.target not in R7 or exists(c.target)]
 
 
 # ------------------------------------------------------------------- round 7: the 7z reader's writing side under deductive contracts --
